@@ -130,7 +130,7 @@ type GoRoot struct {
 
 func (e *Engine) Walk(root *ssa.Function, opts WalkOpts) *Walker {
 	if opts.MaxDepth == 0 {
-		opts.MaxDepth = 6
+		opts.MaxDepth = 12
 	}
 	w := &Walker{E: e, Opts: opts}
 	ctx := e.rootCtx(root)
